@@ -1137,7 +1137,9 @@ def tasks():
     # records - C06's _decrypt_record contract.  The same tasks are run here so that this check sees their failure.
     from . import c05, c06
     out += [t for t in c05.tasks() if getattr(t, "contract", None) is not None and
-            t.contract.target.endswith(("Receiver._handle_file", "Receiver._handle_directory"))]
+            t.contract.target.endswith(("Receiver._handle_file", "Receiver._handle_directory",
+                                        # the tree produced is the tree sent: every member of the archive is unpacked, once
+                                        "Receiver._write_directory", "Receiver._extract_file", "Receiver._write_file"))]
     out += [t for t in c06.tasks() if getattr(t, "contract", None) is not None and
             t.contract.target.endswith(("Connection._decrypt_record", "Connection.dataReceivedRECORDS"))]
     return out
